@@ -425,7 +425,7 @@ def native_check(target, con, args: dict, call, ensures=None):
     for cl, tree, names in parsed[:n_normal]:
         loc = dict(args)
         loc.update(names)
-        loc["result"] = result
+        loc["ret" if "result" in args else "result"] = result     # (same naming rule as the verifier)
         try:
             ok = eval_with(tree, env, loc)
         except Exception as e:  # noqa: BLE001
